@@ -632,6 +632,55 @@ pub fn run(tier: Tier) -> i32 {
             }
         });
     }
+    // longer call sequences over the families that carry state from one expansion to the next
+    // (flags, position, segment): every sequence of up to 4 (6) calls, all macros defined
+    let mut n_long = 0usize;
+    {
+        let fams = [Mac::Probe, Mac::Setter, Mac::EmitOnce, Mac::TailCseg, Mac::Org, Mac::Dseg, Mac::Maybe, Mac::Dw];
+        let maxlen = if tier.thorough() { 6 } else { 4 };
+        let mut seqs: Vec<Vec<usize>> = vec![];
+        let mut frontier: Vec<Vec<usize>> = vec![vec![]];
+        for _ in 0..maxlen {
+            let mut next = Vec::with_capacity(frontier.len() * fams.len());
+            for f in &frontier {
+                for a in 0..fams.len() {
+                    let mut t = f.clone();
+                    t.push(a);
+                    next.push(t);
+                }
+            }
+            seqs.extend(next.iter().filter(|t| t.len() >= 3).cloned());
+            frontier = next;
+        }
+        n_long = seqs.len();
+        seqs.par_iter().for_each(|sq| {
+            let mut trace: Vec<Act> = fams.iter().map(|m| Act::Def(*m, 0)).collect();
+            for (i, a) in sq.iter().enumerate() {
+                let mac = fams[*a];
+                // Maybe: one call that places something, others that place nothing
+                let ai = if mac == Mac::Maybe { i % 2 } else { 0 };
+                trace.push(Act::Call(mac, ai, 0));
+            }
+            trace.push(Act::Plain);
+            let r = m.render(&trace);
+            if let Some(expd) = &r.expanded {
+                let o1 = sut::build_str(&r.program);
+                let o2 = sut::build_str(expd);
+                let same = match (&o1, &o2) {
+                    (Outcome::Ok(x), Outcome::Ok(y)) => x.code == y.code && x.eeprom == y.eeprom && x.ram_filling == y.ram_filling,
+                    _ => false,
+                };
+                if !same {
+                    let names: Vec<&str> = sq.iter().map(|a| fams[*a].name()).collect();
+                    rep.violation(
+                        &format!("C09/call-sequence/first={}/length={}", names[0], names.len()),
+                        || format!("calls {:?}: the macro program gives {} but its hand expansion gives {}", names, o1.brief(), o2.brief()),
+                        || json!({"kind": "build_str", "source": r.program, "hand_expanded_program": expd, "observed": o1.to_json()}),
+                    );
+                }
+            }
+        });
+    }
     let distinct = outcomes.lock().unwrap().len();
     rep.guard(n_ok.load(Ordering::Relaxed) > 1000 && n_err.load(Ordering::Relaxed) > 1000, "need both Ok and Err outcomes");
     rep.guard(distinct > 300, "fewer than 300 distinct observed images");
@@ -655,6 +704,7 @@ pub fn run(tier: Tier) -> i32 {
         "feature_use": *mac_use.lock().unwrap(),
         "repetition_programs": n_rep,
         "alternation_programs": n_alt,
+        "long_call_sequences": n_long,
         "calls_per_repetition_program": reps,
         "trusted_base": ["semantic macro expander of the harness (value substitution of expression arguments)", "exprm::render for argument texts", "stateright 0.31 BFS"],
     }));
